@@ -18,7 +18,7 @@ WORLD_CFGS = {
     "records": [0, 5],
     "json": [0, 3],
     "tagged": [0, 1, 12, 8],
-    "wrapped": [0, 9, 10, 11],
+    "wrapped": [0, 9, 10, 11, 15],
     "kinds": [0],
     "absent": [0, 6],
     "eq": [0],
